@@ -212,6 +212,34 @@ impl WorkerCtx {
     }
 }
 
+/// run `f` with file descriptor 2 pointing at /dev/null (code under test that reports
+/// progress on stderr would otherwise fill the pipe the driver reads only at the end)
+pub fn with_stderr_silenced<R>(f: impl FnOnce() -> R) -> R {
+    struct Restore(i32);
+    impl Drop for Restore {
+        fn drop(&mut self) {
+            unsafe {
+                libc::dup2(self.0, 2);
+                libc::close(self.0);
+            }
+        }
+    }
+    let guard = unsafe {
+        let saved = libc::dup(2);
+        let null = libc::open(b"/dev/null\0".as_ptr() as *const libc::c_char, libc::O_WRONLY);
+        if saved >= 0 && null >= 0 {
+            libc::dup2(null, 2);
+            libc::close(null);
+            Some(Restore(saved))
+        } else {
+            None
+        }
+    };
+    let r = f();
+    drop(guard);
+    r
+}
+
 pub fn silent_panics() {
     std::panic::set_hook(Box::new(|_| {}));
 }
